@@ -1,4 +1,5 @@
 import Proofs.Session
+import PikoModel.Generated.Facts
 /-!
 # C16 — Upstreams are registered exactly while connected; expiry ends connections
 
@@ -176,6 +177,14 @@ example :
   exact hall _ (AMap.mem_of_find h)
 
 example : deadline (some 7) false = some 7 ∧ deadline (some 7) true = none ∧ deadline none false = none := by
+  decide
+
+/-- The atomicity `C16_quiescent_empty` inherits from the C05 invariant, as a regenerated fact: the
+registry update, the cluster-local count and the gossip entry change inside ONE critical section of the
+manager (`manager.mu → cluster.mu`, `manager.mu → gossip.mu` are lock-order edges).  A change that
+releases the manager mutex between them (seeds C16, C05, C20 of round 1) stops this from building. -/
+theorem C16_facts_atomic :
+    ∃ es, Facts.lockEdges = some es ∧ ("manager.mu", "cluster.mu") ∈ es ∧ ("manager.mu", "gossip.mu") ∈ es := by
   decide
 
 end Piko
